@@ -29,8 +29,36 @@ func nilReturns(fn *ssa.Function) []Site {
 			out = append(out, rs)
 			continue
 		}
-		if k, _ := returnErrOperand(rs.Instr.(*ssa.Return), idx); k == "nil" {
+		k, vals := returnErrOperand(rs.Instr.(*ssa.Return), idx)
+		if k == "nil" {
 			out = append(out, rs)
+			continue
+		}
+		// `return w.rejected`: an error kept in the object's state, nil unless something went wrong earlier — on this call
+		// it is the success exit
+		ret := rs.Instr.(*ssa.Return)
+		cands := append([]ssa.Value{}, vals...)
+		if idx < len(ret.Results) {
+			cands = append(cands, ret.Results[idx])
+		}
+		for _, v := range cands {
+			_, f, base, isF := loadOfField(v)
+			if !isF || paramOrigin(base) == nil {
+				continue
+			}
+			// not when this very function sets the field to an error (then the return hands out what was just stored)
+			setHere := false
+			eachInstr(fn, func(t Site) {
+				if st, isS := t.Instr.(*ssa.Store); isS {
+					if _, sf, _, ok := fieldAddrName(st.Addr); ok && sf == f && !isNilConst(st.Val) {
+						setHere = true
+					}
+				}
+			})
+			if !setHere {
+				out = append(out, rs)
+				break
+			}
 		}
 	}
 	return out
